@@ -177,7 +177,7 @@ func runCheck(prop, tier string, seed uint64, replay string) int {
 	}
 	needReal := tier == "thorough" || os.Getenv("VERIF_REAL") != ""
 	if replay != "" {
-		if rf, err := LoadReplay(replay); err == nil && (strings.HasPrefix(rf.Kind, "real-") || rf.Kind == "so-c16") {
+		if rf, err := LoadReplay(replay); err == nil && (strings.HasPrefix(rf.Kind, "real-") || strings.HasPrefix(rf.Kind, "so-c16")) {
 			needReal = true
 		}
 	}
